@@ -141,35 +141,43 @@ def adjudicate(check, t, ob):
            'solver_model': {k: str(v) for k, v in (ob.cex or {}).items()} if isinstance(ob.cex, dict) else None, 'text': ob.text}
     confirmed = False
     try:
-        primes = [2, 3, 5, 7, 11, 13, 17, 19, 23, 29, 31, 37, 41, 43, 47, 53, 59, 61]
-        inputs, vals, k = {}, [], 0
-        for pn in names:
-            pt = dict(f.params)[pn]
-            n = len(replay.leaf_types(low, vt(pt)))
-            if template_of(low, pt) in ('Direction', 'PlanarDirection'):
-                v = [Fraction(3, 13), Fraction(4, 13), Fraction(12, 13)][:n]
-            else:
-                v = [Fraction(primes[(k + i) % len(primes)], 4) for i in range(n)]
-            k += n
-            inputs[pn] = v
-            vals.append([num(x) for x in v])
+        import random
+        rnd = random.Random(check.seed + 18)
+        model = ob.cex if isinstance(ob.cex, dict) else {}
+        cands = []
+        for attempt in range(6):
+            inputs, vals = {}, []
+            for pn in names:
+                pt = dict(f.params)[pn]
+                n = len(replay.leaf_types(low, vt(pt)))
+                if template_of(low, pt) in ('Direction', 'PlanarDirection'):
+                    v = [Fraction(3, 13), Fraction(4, 13), Fraction(12, 13)][:n]
+                elif attempt == 0 and all(model.get('%s.%d' % (pn, i)) is not None for i in range(n)):
+                    v = [Fraction(model['%s.%d' % (pn, i)]) for i in range(n)]       # the solver's counterexample
+                else:
+                    v = [Fraction(rnd.randint(1, 40), rnd.choice([1, 2, 4, 8])) for i in range(n)]
+                inputs[pn] = v
+                vals.append([num(x) for x in v])
+            cands.append((inputs, vals))
         nc = replay.NativeCall(low, f)
-        cpp = nc.program(inputs, includes=default_includes(low, f))
-        r, err = replay.build_and_run(cpp, os.path.join(check.work, 'replay'), 'r_' + re.sub(r'\W+', '_', ob.name)[:150])
-        if err:
-            rec['replay_error'] = err
-        else:
+        for inputs, vals in cands:
+            cpp = nc.program(inputs, includes=default_includes(low, f))
+            r, err = replay.build_and_run(cpp, os.path.join(check.work, 'replay'), 'r_' + re.sub(r'\W+', '_', ob.name)[:150])
+            if err:
+                rec['replay_error'] = err
+                break
             out = replay.parse_out(r.stdout)
             got = [float(x) for x in out.get('RET', [])]
             want = [float(x[1]) if is_num(x) else None for x in formula(vals)]
             if mode == 'sqrt':
-                want = [math.sqrt(want[0])]
-            rec['cpp'], rec['native_output'] = cpp, r.stdout
-            rec['inputs'] = {k2: [str(x) for x in v] for k2, v in inputs.items()}
+                want = [math.sqrt(want[0])] if want[0] is not None and want[0] >= 0 else [None]
             bad = ['component %d: the library returns %r, the textbook formula gives %r' % (i, g, w) for i, (g, w) in enumerate(zip(got, want))
                    if w is None or abs(g - w) > 1e-9 * max(1.0, abs(w))]
             if bad or len(got) != len(want):
+                rec['cpp'], rec['native_output'] = cpp, r.stdout
+                rec['inputs'] = {k2: [str(x) for x in v] for k2, v in inputs.items()}
                 confirmed, rec['mismatch'] = True, bad or ['output %s' % r.stdout]
+                break
     except Exception as e:
         rec['replay_error'] = '%s: %s' % (type(e).__name__, e)
     rec['confirmed'] = confirmed
